@@ -53,6 +53,7 @@ class Config:
     u_out: Any = 1  # 1 / 'many'
     d_dest: Optional[str] = None
     d_out: Any = 1  # 0 / 1 / 'many'
+    d_in: Any = 1  # 1 / 'many'  (entering links of D; SELF is one of them)
     delta: bool = False
     phi: bool = False
     flags: frozenset = frozenset()
@@ -68,7 +69,7 @@ class Config:
         return (
             f"{self.link_cls}{'[N=1]' if self.n1 else '[N>=2]'} "
             f"U(in={self.u_in},origin={o},out={self.u_out}) "
-            f"D(dest={self.d_dest or '-'},out={self.d_out})"
+            f"D(in={self.d_in},dest={self.d_dest or '-'},out={self.d_out})"
             f"{' delta' if self.delta else ''}{' phi' if self.phi else ''}"
             f"{' flags=' + ','.join(sorted(f.replace('positive_', '') for f in self.flags)) if self.flags else ''}"
             f" engine={self.engine_arg}/{self.impl} init={self.init}"
@@ -122,9 +123,10 @@ def u_configs():
 
 
 def d_configs():
-    out = [("Destination", 0), ("CongestedDestination", 0), (None, 1), (None, "many")]
-    for d, n_out in out:
-        assert node_valid(False, False, d is not None, 1, n_out)
+    out = [("Destination", 0, 1), ("CongestedDestination", 0, 1), (None, 1, 1), (None, "many", 1),
+           (None, 1, "many"), (None, "many", "many")]
+    for d, n_out, n_in in out:
+        assert node_valid(False, False, d is not None, n_in, n_out)
     return out
 
 
@@ -137,13 +139,13 @@ def enumerate_configs(tier: str, impls=("casadi", "numpy"), flags_mode="none"):
         for link_cls in ("Link", "LinkWithVsl"):
             for n1 in (False, True):
                 for (u_in, uo, ut, u_out) in u_configs():
-                    for (dd, d_out) in d_configs():
+                    for (dd, d_out, d_in) in d_configs():
                         dps = [(True, True), (False, False)]
                         if tier == "thorough":
                             dps += [(True, False), (False, True)]
                         for delta, phi in dps:
                             cfgs.append(
-                                Config(link_cls, n1, u_in, uo, ut, u_out, dd, d_out, delta, phi, impl=impl)
+                                Config(link_cls, n1, u_in, uo, ut, u_out, dd, d_out, d_in, delta, phi, impl=impl)
                             )
     if tier == "thorough":
         extra = []
@@ -258,7 +260,12 @@ class World:
             self.links.append(l)
             self.d_out = Coll("Out", self.D, "many", [(self.D, X, l)], "Out(D)")
         # entering links of D: SELF (+ possibly others; only the destination asks)
-        self.d_in = Coll("In", self.D, 1, [(self.U, self.D, self.SELF)], "In(D)")
+        if cfg.d_in == 1:
+            self.d_in = Coll("In", self.D, 1, [(self.U, self.D, self.SELF)], "In(D)")
+        else:
+            l = self._link("DIN*", nbr)
+            self.links.append(l)
+            self.d_in = Coll("In", self.D, "many", [(X, self.D, l)], "In(D)")
         # origin / destination
         self.ORG = None
         if cfg.u_origin:
@@ -283,6 +290,7 @@ class World:
         # engines
         self.EXPL = Obj(ENGINE_CLS[cfg.impl], "ENGINE", kind="engine")
         self.CUR = Obj(ENGINE_CLS[cfg.impl], "CURRENT-ENGINE", kind="engine")
+        self.current = self.CUR
         # caller-supplied containers (never registered as owned)
         self.init_conditions = None
         if cfg.init == "user":
@@ -340,6 +348,18 @@ class World:
             "flow_eq_type", "alpha", "vsl", "name",
         ):
             it.event("extra-attr-store", node, f"attribute `{attr}` stored on {o.ident} during stepping")
+
+    def on_module_store(self, it, modname, attr, v, node):
+        if modname == "sym_metanet" and attr == "engine":
+            it.event("selection-store", node, "the engine selection `sym_metanet.engine` is stored")
+            self.current = v
+            return None
+        return NotImplemented
+
+    def module_attr(self, it, modname, attr, node):
+        if modname == "sym_metanet" and attr == "engine":
+            return self.current
+        return NotImplemented
 
     def on_new_container(self, it, d, node):
         self.owned.add(id(d))
@@ -487,6 +507,10 @@ class World:
         return NotImplemented
 
     def isinstance_ext(self, it, o, k, node):
+        if k.name in ("numpy.ndarray",):
+            return isinstance(o, TV) and o.rank == 1
+        if k.name in ("casadi.SX", "casadi.MX", "casadi.DM"):
+            return isinstance(o, TV) and self.cfg.impl == "casadi"
         return False
 
     def call_ext(self, it, name, args, kwargs, node):
@@ -496,7 +520,7 @@ class World:
         fi = f.fi
         if fi.module == "sym_metanet.engines.core" and fi.qualname == "get_current_engine":
             it.event("current-engine", node, "get_current_engine() called")
-            return self.CUR
+            return self.current
         if fi.cls is not None:
             # engine.var -> fresh symbol of the element that asks
             if fi.name == "var" and isinstance(f.self_obj, Obj) and f.self_obj.kind == "engine":
